@@ -27,6 +27,7 @@ import (
 	"io"
 	"io/fs"
 	"os"
+	"os/exec"
 	"path/filepath"
 	"reflect"
 	"sort"
@@ -94,7 +95,8 @@ type history struct {
 	AutoSave bool          `json:"autosave"`
 	AutoGC   bool          `json:"autogc"`
 	Graph    []dag.Encoded `json:"graph"`
-	SHA512   []int         `json:"sha512"` // nodes addressed by sha512 digests
+	SHA512   []int         `json:"sha512"`          // nodes addressed by sha512 digests
+	Holey    int           `json:"holey,omitempty"` // node with a long run of zeros (0 = none; node 0 is never it)
 	Ops      []string      `json:"ops"`
 	Meta     string        `json:"meta,omitempty"`
 }
@@ -419,7 +421,46 @@ func validateLayout(dir string, ignore map[string]bool) (bool, [][2]string) {
 //	3 GNU format (long names through ././@LongLink)
 //	4 like 0, preceded by stale copies of index.json and oci-layout (appended archives: the last entry wins)
 //	5 like 1 with "//" and "/./" inside names (path.Clean)
+//
+// styles 6.. are archives made by the tar tools of the machine (GNU tar, bsdtar): default
+// formats and sparse members (-S; zero runs found by reading) in PAX 1.0, PAX 0.1 and old GNU
+// form.  A missing tool is a failure of the run, not a silent pass.
+const nTarStyles = 11
+
+var toolArgs = map[int][]string{
+	6:  {"tar", "--format=gnu"},
+	7:  {"tar", "-S", "--hole-detection=raw", "--format=posix"},
+	8:  {"tar", "-S", "--hole-detection=raw", "--format=posix", "--sparse-version=0.1"},
+	9:  {"tar", "-S", "--hole-detection=raw", "--format=gnu"},
+	10: {"bsdtar"},
+}
+
+func writeTarTool(dir, out string, style int) error {
+	a := toolArgs[style]
+	src := dir
+	if a[0] == "bsdtar" {
+		// bsdtar finds holes with lseek: archive a copy whose zero runs are real holes
+		src = out + ".copy"
+		os.RemoveAll(src)
+		if o, err := exec.Command("cp", "-a", "--sparse=always", dir, src).CombinedOutput(); err != nil {
+			return fmt.Errorf("cp --sparse: %v %s", err, o)
+		}
+		defer os.RemoveAll(src)
+	}
+	args := append(append([]string{}, a[1:]...), "-cf", out, "-C", src, "--exclude=./ingest", ".")
+	cmd := exec.Command(a[0], args...)
+	cmd.Env = append(os.Environ(), "LC_ALL=C")
+	if o, err := cmd.CombinedOutput(); err != nil {
+		return fmt.Errorf("%s %v: %v %s", a[0], args, err, o)
+	}
+	run.Count(fmt.Sprintf("tar:style%d(%s)", style, strings.Join(a, "_")))
+	return nil
+}
+
 func writeTar(dir, out string, style int) error {
+	if style >= 6 {
+		return writeTarTool(dir, out, style)
+	}
 	f, err := os.Create(out)
 	if err != nil {
 		return err
@@ -689,7 +730,7 @@ func (r *runner) checkpoint() string {
 		{"oci.New", func() (target, error) { return oci.New(r.dir) }},
 		{"NewFromFS(os.DirFS)", func() (target, error) { return oci.NewFromFS(ctx, os.DirFS(r.dir)) }},
 		{"NewFromTar", func() (target, error) {
-			if err := writeTar(r.dir, tarPath, len(r.h.Ops)%6); err != nil {
+			if err := writeTar(r.dir, tarPath, len(r.h.Ops)%nTarStyles); err != nil {
 				panic(err)
 			}
 			return oci.NewFromTar(ctx, tarPath)
@@ -1098,6 +1139,15 @@ func generateHistory(seed uint64, index int, thorough bool) {
 			Desc: ocispec.Descriptor{MediaType: ocispec.MediaTypeImageLayer, Digest: digest.SHA512.FromBytes(bts), Size: int64(len(bts))}})
 		h.SHA512 = append(h.SHA512, id)
 	}
+	// a layer with a long run of zero bytes: real tar tools store it as a sparse member
+	if rnd.Chance(1, 3) {
+		id := len(g.Nodes)
+		bts := append([]byte(fmt.Sprintf("holey-%d-%x", id, rnd.U64())), make([]byte, 24576)...)
+		bts = append(bts, []byte("-tail")...)
+		g.Nodes = append(g.Nodes, &dag.Node{ID: id, Kind: dag.KBlob, Bytes: bts, Subject: -1, TwinOf: -1,
+			Desc: ocispec.Descriptor{MediaType: ocispec.MediaTypeImageLayer, Digest: digest.FromBytes(bts), Size: int64(len(bts))}})
+		h.Holey = id
+	}
 	h.Graph = g.Encode()
 	tier := "q"
 	if thorough {
@@ -1142,6 +1192,9 @@ func replay(path string) {
 				if err := json.Unmarshal([]byte(s), &h.SHA512); err != nil {
 					panic(err)
 				}
+			}
+			if v, ok := c["holey"]; ok {
+				h.Holey, _ = strconv.Atoi(v)
 			}
 			if err := json.Unmarshal([]byte(c["ops"]), &h.Ops); err != nil {
 				panic(err)
